@@ -44,59 +44,60 @@ theorem c20_order_respected (specs : List Spec) (i j : Nat) (hi : i < j) (hj : j
     ((load specs)[i]'(by omega)).key ≤ ((load specs)[j]'hj).key :=
   List.pairwise_iff_getElem.mp (c20_loaded specs).2.1 i j (by omega) hj hi
 
-/-- the result of a stable sort is unique: any list with the three properties of `c20_loaded` that is also
-    sorted is what the loader returns — so "stable sort by order" pins the observable list down completely. -/
+/-- what the source says now: ascending sort, a falsy `order()` counts as 0 (the three facts of `c20_loaded` are
+    stated for this direction; `reverse=True` in the source makes this — and the proofs above — fail). -/
 theorem c20_direction : Extracted.Plugins.sortReverse = false ∧ Extracted.Plugins.orderNoneAs = 0 := by decide
 
 /-! ### isolation of the callback families (Exception-class plugin failures) -/
 
-/-- the statement shared by the families below -/
-def Isolated (allowed : RaiseSet) (id : String) (s : Stmt) : Prop :=
-  ∃ body, findLoop id s = some body ∧
+/-- the statement shared by the families below; the loop is named by position (`lastLoop`: the only loop of the
+    function, or the inner one of the metric pair), so renaming the iterated variable does not matter -/
+def Isolated (allowed : RaiseSet) (s : Stmt) : Prop :=
+  ∃ id body, lastLoop s = some (id, body) ∧
     ∀ env, FaultsIn allowed env → ∀ tr, ∃ tr', exec env (.loop id body) tr = (.normal, tr') ∧
       (∀ j, j < env.iters tr id → Ev.iter id j ∈ tr') ∧ (∀ ev ∈ tr, ev ∈ tr')
 
 /-- importing: a plugin module that is missing (or whose import fails) does not stop the following names. -/
-theorem c20_import_isolated : Isolated RaiseSet.onlyExc "configured" pluginGenerator :=
-  isoLoopIn_spec _ _ _ (by decide)
+theorem c20_import_isolated : Isolated RaiseSet.onlyExc pluginGenerator :=
+  isoLastLoop_spec _ _ (by decide)
 
 /-- constructing / `is_active()`: a raising constructor or an inactive plugin (`continue`) skips only itself. -/
 theorem c20_construct_isolated :
-    Isolated RaiseSet.onlyExc "__plugin_generator(DEEP_PLUGINS + custom)" loadPlugins :=
-  isoLoopIn_spec _ _ _ (by decide)
+    Isolated RaiseSet.onlyExc loadPlugins :=
+  isoLastLoop_spec _ _ (by decide)
 
 /-- resource providers in `Deep.start`: a failing provider costs its own attributes; the loop ends normally and
     `start` goes on to install the hooks. -/
-theorem c20_resource_isolated : Isolated RaiseSet.onlyExc "self.config.resource_providers" deepStart :=
-  isoLoopIn_spec _ _ _ (by decide)
+theorem c20_resource_isolated : Isolated RaiseSet.onlyExc deepStart :=
+  isoLastLoop_spec _ _ (by decide)
 
 /-- snapshot decorators: the snapshot is still completed (the loop ends normally, `merge_in` + `return` follow)
     with the decorations of the others. -/
-theorem c20_decorators_isolated : Isolated RaiseSet.onlyExc "ctx.config.snapshot_decorators" decorateSnapshot :=
-  isoLoopIn_spec _ _ _ (by decide)
+theorem c20_decorators_isolated : Isolated RaiseSet.onlyExc decorateSnapshot :=
+  isoLastLoop_spec _ _ (by decide)
 
 /-- metric processors: for each metric every processor is tried. -/
 theorem c20_metric_processors_isolated :
-    Isolated RaiseSet.onlyExc "self.trigger_context.config.metric_processors" metricProcessAction :=
-  isoLoopIn_spec _ _ _ (by decide)
+    Isolated RaiseSet.onlyExc metricProcessAction :=
+  isoLastLoop_spec _ _ (by decide)
 
 /-- span processors: every processor is asked to create its span. -/
 theorem c20_span_processors_isolated :
-    Isolated RaiseSet.onlyExc "self.trigger_context.config.span_processors" spanProcessAction :=
-  isoLoopIn_spec _ _ _ (by decide)
+    Isolated RaiseSet.onlyExc spanProcessAction :=
+  isoLastLoop_spec _ _ (by decide)
 
 /-- closing spans: every span created for the line/method is closed even if another one fails to close. -/
-theorem c20_spans_close_isolated : Isolated RaiseSet.onlyExc "self.__spans" spanCallbackProcess :=
-  isoLoopIn_spec _ _ _ (by decide)
+theorem c20_spans_close_isolated : Isolated RaiseSet.onlyExc spanCallbackProcess :=
+  isoLastLoop_spec _ _ (by decide)
 
 /-- results of an event (log line through the tracepoint logger, decorated snapshot push): one failing result
     does not lose the others. -/
-theorem c20_results_isolated : Isolated RaiseSet.onlyExc "self.__results" triggerContextExit :=
-  isoLoopIn_spec _ _ _ (by decide)
+theorem c20_results_isolated : Isolated RaiseSet.onlyExc triggerContextExit :=
+  isoLastLoop_spec _ _ (by decide)
 
 /-- plugin shutdown: every plugin is shut down, whatever class the others raise. -/
-theorem c20_shutdown_isolated : Isolated RaiseSet.all "steps" deepShutdown :=
-  isoLoopIn_spec _ _ _ (by decide)
+theorem c20_shutdown_isolated : Isolated RaiseSet.all deepShutdown :=
+  isoLastLoop_spec _ _ (by decide)
 
 /-- **after the decorators, the snapshot is returned**: `_decorate_snapshot` has exactly two ways to end, for
     every environment: it returns the snapshot, or something outside the guarded decorator loop raised (the
